@@ -255,8 +255,11 @@ func (a address) assign(k bool, value int8, valueType reflect.Type) {
 		a.em.fb.emitSetMap(k, a.op1, value, a.op2, a.addressedType, a.pos)
 		a.em.fb.emitSetVar(false, a.op1, a.nonLocal, a.addressedType.Kind())
 	case assignLocalStructSelector:
+		// The instruction panics if a pointer in the path of the field is nil.
+		a.em.fb.addPosAndPath(a.pos)
 		a.em.fb.emitSetField(k, a.op1, a.op2, value, valueType.Kind())
 	case assignNonLocalStructSelector:
+		a.em.fb.addPosAndPath(a.pos)
 		a.em.fb.emitSetField(k, a.op1, a.op2, value, valueType.Kind())
 		a.em.fb.emitSetVar(false, a.op1, a.nonLocal, a.addressedType.Kind())
 	}
@@ -327,7 +330,7 @@ func (em *emitter) emitAssignmentOperation(addr address, rh ast.Expression) {
 		em.changeRegister(false, -addr.op1, c, typ, typ)
 	case assignLocalStructSelector,
 		assignNonLocalStructSelector:
-		em.fb.emitField(addr.op1, addr.op2, c, typ.Kind())
+		em.fb.emitField(addr.op1, addr.op2, c, typ.Kind(), addr.pos)
 	}
 
 	// Emit the code that evaluates the right side of the assignment.
